@@ -399,6 +399,9 @@ func genSeqMap(prop string, seed uint64, tier string, kinds []string) *SeqScenar
 		// every number of counter stripes, then shrink all the way back
 		n := 40000 + g.r.Intn(50000)
 		keep := g.r.Intn(1200)
+		if g.r.Bool(0.5) {
+			sc.A.Hasher = "growonly" // the table stays at its largest size while the map empties
+		}
 		sc.Ops = append(sc.Ops, Op{K: XBulkInsert, Key: 7000, Val: 300000, N: n}, Op{K: MSize})
 		sc.Ops = append(sc.Ops, Op{K: XBulkDelete, Key: 7000 + keep, N: n - keep}, Op{K: MSize}, Op{K: MRange})
 		sc.Ops = append(sc.Ops, Op{K: MLoad, Key: 7000}, Op{K: MLoad, Key: 7000 + n - 1}, Op{K: MStore, Key: 1, Val: g.val()})
